@@ -300,6 +300,13 @@ SpecsReq(s) ==
     Bad(Plain),
     Sp("LB", "v4", "S", "k1", {"tcp80"}, "Cluster", "x", <<>>, ""),
     Dep(Sp("LB", "v4", "S", "k1", {"tcp443"}, "Cluster", "x", <<>>, "")) }
+(* sharing among Local-policy Services (identical one- and two-label selectors, a different selector, Cluster) *)
+SpecsLocalShare(s) ==
+  LET pt == IF s = "s1" THEN {"tcp80"} ELSE {"tcp443"} IN
+  { Sp("LB", "v4", "S", "k1", pt, "Local", "x+z", <<>>, ""),
+    Sp("LB", "v4", "S", "k1", pt, "Local", "x", <<>>, ""),
+    Sp("LB", "v4", "S", "k1", pt, "Local", IF s = "s1" THEN "x+z" ELSE "x+y", <<>>, ""),
+    Sp("LB", "v4", "S", "k1", pt, "Cluster", "x", <<>>, "") }
 SpecsPlain(s) == { Plain }
 SpecsPlainCIP(s) == { Plain, Sp("CIP", "v4", "S", "", {"tcp80"}, "Cluster", "x", <<>>, "") }
 SpecsDual(s) ==
